@@ -23,7 +23,9 @@ import (
 	dns "github.com/irai/packet/handlers/dns_naming"
 	icmp "github.com/irai/packet/handlers/icmp_spoofer"
 	"verif/harness/core"
+	"verif/harness/dnsgen"
 	"verif/harness/frames"
+	"verif/harness/ndpgen"
 	"verif/harness/sess"
 )
 
@@ -61,8 +63,12 @@ func history(seed int64, n int, rich bool) [][]byte {
 	zero, all := []byte{0, 0, 0, 0}, []byte{255, 255, 255, 255}
 	kinds := 10
 	if rich {
-		kinds = 14
+		kinds = 24
 	}
+	udp4 := func(src, dst []byte, srcIP, dstIP []byte, sp, dp int, payload []byte) []byte {
+		return frames.Ether(dst, src, 0x0800, 0, frames.IP4(frames.IP4Opts{TotalLen: -1, Proto: 17, Src: srcIP, Dst: dstIP, TTL: 64}, frames.UDP(sp, dp, -1, payload)))
+	}
+	allNodes := []byte{0xff, 2, 0, 0, 0, 0, 0, 0, 0, 0, 0, 0, 0, 0, 0, 1}
 	for len(h) < n {
 		i := r.Intn(5)
 		switch r.Intn(kinds) {
@@ -112,6 +118,53 @@ func history(seed int64, n int, rich bool) [][]byte {
 				e := frames.DHCP(1, xid(), 0, addr, nil, cmac(i), 7, [][2][]byte{{{61}, cid}, {{54}, {192, 168, 0, 129}}})
 				h = append(h, dhcpFrame(cmac(i), addr, []byte{192, 168, 0, 129}, false, e))
 			}
+		case 14: // ARP reply / gratuitous announcement
+			h = append(h, frames.Ether(hostMAC, cmac(i), 0x0806, 0, frames.ARP(2, 6, 4, cmac(i), cip(r.Intn(6)), hostMAC, []byte{192, 168, 0, 129})))
+		case 15: // neighbour advertisement with target link-layer address / router solicitation with source link-layer address
+			if r.Intn(2) == 0 {
+				body := append(append([]byte{}, clla(i)...), append([]byte{2, 1}, cmac(i)...)...)
+				h = append(h, frames.Ether([]byte{0x33, 0x33, 0, 0, 0, 1}, cmac(i), 0x86dd, 0, frames.IP6(frames.IP6Opts{PayloadLen: -1, Next: 58, Hop: 255, Src: clla(i), Dst: allNodes}, frames.ICMP(136, 0, 0x6000, 0, body))))
+			} else {
+				h = append(h, frames.Ether([]byte{0x33, 0x33, 0, 0, 0, 2}, cmac(i), 0x86dd, 0, frames.IP6(frames.IP6Opts{PayloadLen: -1, Next: 58, Hop: 255, Src: clla(i), Dst: []byte{0xff, 2, 0, 0, 0, 0, 0, 0, 0, 0, 0, 0, 0, 0, 0, 2}}, frames.ICMP(133, 0, 0, 0, append([]byte{1, 1}, cmac(i)...)))))
+			}
+		case 16: // echo request / reply, v4 and v6
+			t4, t6 := 8, 128
+			if r.Intn(2) == 0 {
+				t4, t6 = 0, 129
+			}
+			if r.Intn(2) == 0 {
+				h = append(h, frames.Ether(hostMAC, cmac(i), 0x0800, 0, frames.IP4(frames.IP4Opts{TotalLen: -1, Proto: 1, Src: cip(i), Dst: []byte{192, 168, 0, 129}, TTL: 64}, frames.ICMP(t4, 0, 7, r.Intn(100), []byte("abcdefgh")))))
+			} else {
+				h = append(h, frames.Ether(hostMAC, cmac(i), 0x86dd, 0, frames.IP6(frames.IP6Opts{PayloadLen: -1, Next: 58, Hop: 64, Src: clla(i), Dst: clla(9)}, frames.ICMP(t6, 0, 7, r.Intn(100), []byte("abcdefgh")))))
+			}
+		case 17, 18: // router advertisement with an arbitrary option set (prefix, route information, RDNSS, DNSSL, MTU, link-layer, unknown)
+			rt := 9 + r.Intn(2)
+			ra := ndpgen.RA(64, byte(r.Intn(256))&0xf8, uint16(r.Intn(4000)), 0, 0, ndpgen.RandOptions(r, 6))
+			h = append(h, frames.Ether([]byte{0x33, 0x33, 0, 0, 0, 1}, cmac(rt), 0x86dd, 0, frames.IP6(frames.IP6Opts{PayloadLen: -1, Next: 58, Hop: 255, Src: clla(rt), Dst: allNodes}, ra)))
+		case 19: // mDNS response with several record types (A, AAAA, PTR, SRV, TXT …)
+			pool := [][]byte{cip(i), cip((i + 1) % 6)}
+			m := dnsgen.Build(dnsgen.RandMDNS(r, pool), dnsgen.Opts{Compress: r.Intn(2) == 0, Rnd: r}).Bytes
+			h = append(h, udp4(cmac(i), []byte{1, 0, 0x5e, 0, 0, 0xfb}, cip(i), []byte{224, 0, 0, 251}, 5353, 5353, m))
+		case 20: // NBNS response (name registration / node status)
+			m := dnsgen.Build(dnsgen.RandNBNS(r), dnsgen.Opts{Rnd: r}).Bytes
+			h = append(h, udp4(cmac(i), bcast, cip(i), []byte{192, 168, 0, 255}, 137, 137, m))
+		case 21: // SSDP NOTIFY / LLMNR response
+			if r.Intn(2) == 0 {
+				txt := "NOTIFY * HTTP/1.1\r\nHOST: 239.255.255.250:1900\r\nCACHE-CONTROL: max-age=" + fmt.Sprint(60+r.Intn(1800)) + "\r\nLOCATION: http://" + netip.AddrFrom4([4]byte(cip(i))).String() + ":49152/d.xml\r\nNT: upnp:rootdevice\r\nNTS: ssdp:alive\r\nSERVER: Linux UPnP/1.0 " + names[r.Intn(len(names))] + "\r\nUSN: uuid:1234::upnp:rootdevice\r\n\r\n"
+				h = append(h, udp4(cmac(i), []byte{1, 0, 0x5e, 0x7f, 0xff, 0xfa}, cip(i), []byte{239, 255, 255, 250}, 1900, 1900, []byte(txt)))
+			} else {
+				nm := names[r.Intn(len(names))]
+				m := frames.DNSMsg(r.Intn(65536), 0x8000, nm, 1, []frames.RR{{Name: nm, Type: 1, TTL: 30, Data: cip(i)}}, false)
+				h = append(h, udp4(cmac(i), hostMAC, cip(i), []byte{192, 168, 0, 129}, 5355, 50000+r.Intn(100), m))
+			}
+		case 22: // DNS response with AAAA and PTR records
+			site := sites[r.Intn(len(sites))]
+			ans := []frames.RR{{Name: site, Type: 28, TTL: 60, Data: []byte{0x20, 1, 0xd, 0xb8, 0, 0, 0, 0, 0, 0, 0, 0, 0, 0, 0, byte(r.Intn(256))}},
+				{Name: "4.3.2.1.in-addr.arpa", Type: 12, TTL: 60, Data: frames.DNSName(site)}}
+			m := frames.DNSMsg(r.Intn(65536), 0x8180, site, 28, ans, r.Intn(2) == 0)
+			h = append(h, udp4(routerMAC, cmac(i), []byte{192, 168, 0, 11}, cip(i), 53, 40000+r.Intn(1000), m))
+		case 23: // a frame from our own NIC / to a multicast MAC (not to be tracked as a host)
+			h = append(h, udp4(hostMAC, []byte{1, 0, 0x5e, 0, 0, 1}, []byte{192, 168, 0, 129}, []byte{224, 0, 0, 1}, 40000, 40001, []byte{9}))
 		case 13: // OFFER of the home router to a client (seen by us: the secondary modes answer with a forged DECLINE)
 			cid := append([]byte{1}, cmac(i)...)
 			o := frames.DHCP(2, xid(), 0x8000, nil, cip(i), cmac(i), 2, [][2][]byte{{{54}, {192, 168, 0, 11}}, {{51}, {0, 0, 14, 16}}, {{61}, cid}, {{1}, {255, 255, 255, 0}}, {{3}, {192, 168, 0, 11}}})
@@ -209,6 +262,7 @@ func worker(mode string, seed int64, n int) string {
 		return "dhcp.New: " + err.Error()
 	}
 	fmt.Fprintf(&t, "dhcp mode %d\n", dmode)
+	progress := map[string]int{}
 	shared := make([]byte, 2048)
 	// quiescent number of goroutines (handler loops): start-up goroutines that end by themselves are given time to do so
 	base := runtime.NumGoroutine()
@@ -255,10 +309,46 @@ func worker(mode string, seed int64, n int) string {
 						host.UpdateMDNSName(e.NameEntry)
 					}
 				}
+			case packet.PayloadNBNS:
+				name, err := dh.ProcessNBNS(frame.Host, frame.Ether(), frame.Payload())
+				out += fmt.Sprintf(" nbns=%s err=%v", nameStr(name), err != nil)
+				if err == nil && frame.Host != nil && name.Name != "" {
+					frame.Host.UpdateNBNSName(name)
+				}
+			case packet.PayloadSSDP:
+				name, loc, err := dh.ProcessSSDP(frame.Host, frame.Ether(), frame.Payload())
+				out += fmt.Sprintf(" ssdp=%s loc=%q err=%v", nameStr(name), loc, err != nil)
+				if err == nil && frame.Host != nil && name.Name != "" {
+					frame.Host.UpdateSSDPName(name)
+				}
+			case packet.PayloadLLMNR:
+				v4, v6, err := dh.ProcessMDNS(frame)
+				out += fmt.Sprintf(" llmnr=%d/%d err=%v", len(v4), len(v6), err != nil)
+				for _, e := range v4 {
+					if host := s.FindIP(e.Addr.IP); host != nil {
+						host.UpdateLLMNRName(e.NameEntry)
+					}
+				}
 			}
 			s.Notify(frame)
+			progress[fmt.Sprintf("pid=%d", frame.PayloadID)]++
 			return out
 		})
+		purged := false
+		if k%25 == 24 { // the background purge: offline transitions (and probes of silent hosts) on a clock ahead of the packets
+			s.VerifPurge(time.Now().Add([]time.Duration{3 * time.Minute, 7 * time.Minute}[(k/25)%2]))
+			fmt.Fprintf(&t, "%d purge\n", k)
+			purged = true
+		}
+		if k%30 == 29 { // API calls between packets
+			m := cmac(k / 30 % 5)
+			if s.IsCaptured(m) {
+				s.Release(m)
+			} else {
+				s.Capture(m)
+			}
+			fmt.Fprintf(&t, "%d toggle capture %x\n", k, m)
+		}
 		fmt.Fprintf(&t, "%d %s\n", k, res)
 		if mode == "scribble" { // the caller reuses its receive buffer
 			for i := range shared {
@@ -274,31 +364,77 @@ func worker(mode string, seed int64, n int) string {
 			base = g // a long-lived goroutine was started: the new quiescent level
 		}
 		// drain notifications and emitted frames after every step
+		var notifs []string
 	drain:
 		for {
 			select {
 			case nt := <-s.C:
-				fmt.Fprintf(&t, "  notif %s %s online=%v dhcp=%s mdns=%s router=%v\n", nt.Addr.MAC, nt.Addr.IP, nt.Online, nameStr(nt.DHCP4Name), nameStr(nt.MDNSName), nt.IsRouter)
+				progress["notifications"]++
+				notifs = append(notifs, fmt.Sprintf("  notif %s %s online=%v dhcp=%s mdns=%s ssdp=%s llmnr=%s nbns=%s router=%v manuf=%q\n", nt.Addr.MAC, nt.Addr.IP, nt.Online,
+					nameFull(nt.DHCP4Name), nameFull(nt.MDNSName), nameFull(nt.SSDPName), nameFull(nt.LLMNRName), nameFull(nt.NBNSName), nt.IsRouter, nt.Manufacturer))
 			default:
 				break drain
 			}
 		}
+		sort.Strings(notifs) // a purge makes several hosts offline in table (map) order
+		for _, nl := range notifs {
+			t.WriteString(nl)
+		}
 		var sent []string
 		for _, f := range conn.Take() {
+			if purged {
+				// the probes a purge sends depend on the iteration order of the host table (the probe loop of Session.purge
+				// ends at the first link-local IPv6 host) and on the clock (echo id): counted, not compared
+				continue
+			}
 			sent = append(sent, canonFrame(f))
 		}
 		sort.Strings(sent) // the order between a reply and the frames of background senders is not part of the claim
 		for _, f := range sent {
+			progress["sent"]++
 			fmt.Fprintf(&t, "  sent %s\n", f)
 		}
+		if k%20 == 19 { // retained state is dumped along the history, not only at its end
+			t.WriteString(snapshot(s, h6, dh, dhcpd))
+		}
 	}
-	// final snapshots
+	t.WriteString(snapshot(s, h6, dh, dhcpd))
+	progress["hosts"] = len(s.GetHosts())
+	progress["leases"] = len(dhcpd.VerifDump().Leases)
+	progress["dns"] = len(dh.DNSTable)
+	progress["routers"] = len(h6.LANRouters)
+	if b, err := os.ReadFile(lease); err == nil {
+		t.WriteString("\nleasefile:\n" + canonLeaseFile(string(b)))
+	}
+	// what the run exercised: the comparison of the two modes means nothing if nothing happened (audit I2)
+	var keys []string
+	for k := range progress {
+		keys = append(keys, k)
+	}
+	sort.Strings(keys)
+	t.WriteString("\nprogress:")
+	for _, k := range keys {
+		fmt.Fprintf(&t, " %s=%d", k, progress[k])
+	}
+	t.WriteString("\n")
+	return t.String()
+}
+
+func nameFull(n packet.NameEntry) string {
+	return fmt.Sprintf("%q/%q/%q/%q/%q/exp=%v", n.Type, n.Name, n.Model, n.Manufacturer, n.OS, !n.Expire.IsZero())
+}
+
+// snapshot renders the retained state: host and MAC tables with every name and flag, IPv6 router table, DNS table (all record
+// kinds), the DHCP lease table in memory.
+func snapshot(s *packet.Session, h6 *icmp.Handler6, dh *dns.DNSHandler, dhcpd *dhcp.Handler) string {
 	var lines []string
 	for _, h := range s.GetHosts() {
-		lines = append(lines, fmt.Sprintf("host %s %s online=%v dhcp=%s mdns=%s", h.Addr.IP, h.Addr.MAC, h.Online, nameStr(h.DHCP4Name), nameStr(h.MDNSName)))
+		lines = append(lines, fmt.Sprintf("host %s %s online=%v manuf=%q dhcp=%s mdns=%s ssdp=%s llmnr=%s nbns=%s", h.Addr.IP, h.Addr.MAC, h.Online, h.Manufacturer,
+			nameFull(h.DHCP4Name), nameFull(h.MDNSName), nameFull(h.SSDPName), nameFull(h.LLMNRName), nameFull(h.NBNSName)))
 	}
 	for _, e := range s.MACTable.Table {
-		lines = append(lines, fmt.Sprintf("mac %s ip4=%s lla=%s gua=%s offer=%s dhcp=%s mdns=%s hosts=%d", e.MAC, e.IP4, e.IP6LLA, e.IP6GUA, e.IP4Offer, nameStr(e.DHCP4Name), nameStr(e.MDNSName), len(e.HostList)))
+		lines = append(lines, fmt.Sprintf("mac %s ip4=%s lla=%s gua=%s offer=%s captured=%v router=%v online=%v manuf=%q dhcp=%s mdns=%s ssdp=%s llmnr=%s nbns=%s hosts=%d", e.MAC, e.IP4, e.IP6LLA, e.IP6GUA, e.IP4Offer,
+			e.Captured, e.IsRouter, e.Online, e.Manufacturer, nameFull(e.DHCP4Name), nameFull(e.MDNSName), nameFull(e.SSDPName), nameFull(e.LLMNRName), nameFull(e.NBNSName), len(e.HostList)))
 	}
 	for ip, r := range h6.LANRouters {
 		rd := "nil"
@@ -318,14 +454,22 @@ func worker(mode string, seed int64, n int) string {
 			cn = append(cn, c)
 		}
 		sort.Strings(cn)
-		lines = append(lines, fmt.Sprintf("dns %q ip4=%v cname=%v", name, ips, cn))
+		var ip6, ptr []string
+		for ip := range e.IP6Records {
+			ip6 = append(ip6, ip.String())
+		}
+		sort.Strings(ip6)
+		for k, v := range e.PTRRecords {
+			ptr = append(ptr, fmt.Sprintf("%s=%s", k, v.IP))
+		}
+		sort.Strings(ptr)
+		lines = append(lines, fmt.Sprintf("dns %q ip4=%v ip6=%v cname=%v ptr=%v", name, ips, ip6, cn, ptr))
+	}
+	for _, l := range dhcpd.VerifDump().Leases {
+		lines = append(lines, fmt.Sprintf("lease %x state=%d mac=%x ip=%s offer=%s xid=%x subnet=%d", l.CID, l.State, l.MAC, l.IP, l.Offer, l.XID, l.Subnet))
 	}
 	sort.Strings(lines)
-	t.WriteString(strings.Join(lines, "\n"))
-	if b, err := os.ReadFile(lease); err == nil {
-		t.WriteString("\nleasefile:\n" + canonLeaseFile(string(b)))
-	}
-	return t.String()
+	return "state:\n" + strings.Join(lines, "\n") + "\n"
 }
 
 // canonLeaseFile: the lease records are written in Go map iteration order and carry wall-clock instants
@@ -388,6 +532,38 @@ func runWorker(mode string, seed int64, n int) (string, error) {
 	}
 }
 
+// idle reports what a worker transcript did NOT exercise ("" when it made progress everywhere): a history that reached no
+// handler, produced no notification, no frame, no host or no lease compares nothing.
+func idle(transcript string) string {
+	if strings.HasPrefix(transcript, "dhcp.New:") {
+		return "the DHCP handler could not be constructed: " + transcript
+	}
+	k := strings.LastIndex(transcript, "\nprogress:")
+	if k < 0 {
+		return "the worker did not finish its history"
+	}
+	got := map[string]int{}
+	for _, f := range strings.Fields(transcript[k+len("\nprogress:"):]) {
+		var name string
+		var n int
+		if p := strings.LastIndex(f, "="); p > 0 {
+			name = f[:p]
+			fmt.Sscan(f[p+1:], &n)
+			got[name] = n
+		}
+	}
+	var missing []string
+	for _, want := range []string{"pid=3", "pid=7", "pid=10", "pid=12", "pid=13", "notifications", "sent", "hosts", "leases", "dns", "routers"} {
+		if got[want] == 0 {
+			missing = append(missing, want)
+		}
+	}
+	if len(missing) > 0 {
+		return "the history exercised nothing of: " + strings.Join(missing, ", ")
+	}
+	return ""
+}
+
 func firstDiff(a, b string) string {
 	la, lb := strings.Split(a, "\n"), strings.Split(b, "\n")
 	for i := 0; i < len(la) || i < len(lb); i++ {
@@ -442,6 +618,9 @@ func Gen(c *core.Ctx) {
 		if d := firstDiff(a, b); d != "" {
 			c.Violate(core.Violation{Kind: "property", What: "retained state or later output depends on the reuse of the packet buffer: transcripts differ at " + d,
 				Replay: []string{fmt.Sprintf("history seed=%d n=%d", seed, n)}})
+		} else if w := idle(a); w != "" {
+			c.Violate(core.Violation{Kind: "tie", What: "C10 history without progress (the two buffer modes agree vacuously): " + w,
+				Replay: []string{fmt.Sprintf("history seed=%d n=%d", seed, n)}})
 		}
 	}
 	c.Res.Extra["distinct_override"] = hist * n
@@ -471,6 +650,13 @@ func Eval(c *core.Ctx, line string) *core.Case {
 		what = err.Error()
 	case d != "":
 		what = "retained state or later output depends on the reuse of the packet buffer: transcripts differ at " + d
+	}
+	if what == "" {
+		if a, errA := runWorker("scribble", seed, n); errA == nil {
+			if w := idle(a); w != "" {
+				what = "C10 history without progress (the two buffer modes agree vacuously): " + w
+			}
+		}
 	}
 	return &core.Case{Line: line, Impl: "compared", Cmp: func(a, b string) bool { return true }, Class: "history",
 		Oracle: func() (string, string) { return what, "" }}
